@@ -59,6 +59,9 @@ func typeShort(t types.Type) string {
 	case *types.Pointer:
 		return typeShort(t.Elem())
 	case *types.Named:
+		if t.Obj().Pkg() == nil {
+			return t.Obj().Name() // universe: error
+		}
 		return pkgShort(t.Obj().Pkg()) + "." + t.Obj().Name()
 	case *types.Alias:
 		return typeShort(types.Unalias(t))
@@ -248,6 +251,15 @@ func (P *Program) lookupType(name string) types.Type {
 	}
 	i := strings.Index(name, ".")
 	if i < 0 {
+		if obj := types.Universe.Lookup(name); obj != nil {
+			if tn, ok := obj.(*types.TypeName); ok {
+				t := tn.Type()
+				if ptr {
+					t = types.NewPointer(t)
+				}
+				return t
+			}
+		}
 		return nil
 	}
 	pk := P.AllPkgs[name[:i]]
